@@ -237,3 +237,22 @@ func vC03Served(a *asset) {
 	vAssert("C03.served.end.less-than-a-frame-late", (e-frame)*refTs < refEnd*aTs)
 	vReach("C03.served.end")
 }
+
+// calcAudioTimeFromRef on ANY reference time (not only segment boundaries of the bundled assets) and a table of
+// reference timescales incl. 59.94 fps grids (60000) whose conversion to 48 kHz is not an integer: the result is the
+// first audio frame boundary at or after the reference time, compared exactly by cross-multiplication.
+func init() {
+	vHarnesses["vH_C03_audio_boundary_kernel"] = vH_C03_audio_boundary_kernel
+}
+
+func vH_C03_audio_boundary_kernel() {
+	refTs := [5]int{90000, 60000, 30000, 12800, 1000}[vConc(vInt("refTsIdx", 0, 4))]
+	frame := [2]int{1024, 1536}[vConc(vInt("frameIdx", 0, 1))]
+	const audioTs = 48000
+	refTime := vInt("refTime", 0, 1<<40)
+	got := int(calcAudioTimeFromRef(uint64(refTime), uint64(refTs), uint64(frame), audioTs))
+	vAssert("C03.kernel.on-frame-grid", got%frame == 0)
+	vAssert("C03.kernel.at-or-after-reference", got*refTs >= refTime*audioTs)
+	vAssert("C03.kernel.less-than-one-frame-after", (got-frame)*refTs < refTime*audioTs)
+	vReach("C03.kernel.end")
+}
